@@ -11,8 +11,8 @@ SPEC = {
         # unread updates (regression for #13a, label `c19queue #13a`)
         {"name": "c19queue", "quick_args": ["-n", "400"], "thorough_args": ["-n", "100000"], "timeout": 2500},
         # the teardown protocol on the real server: RemoveUser / Close return, no goroutine left. Labels:
-        # `c19teardown ctxcancel-hang` (regression for #13c), `c19teardown #13d` (removeState skips state.Close
-        # when its DB write fails), `c19teardown #13a-errch` (Server.Close uses plain Close on serveErrCh)
+        # `c19teardown ctxcancel-hang` (regression for #13c), `c19teardown #13d` (regression: removeState closes the
+        # state also when its DB write fails), `c19teardown #13a-errch` (regression: Server.Close discards serveErrCh)
         {"name": "c19teardown", "quick_args": ["-n", "6"], "thorough_args": ["-n", "400"], "timeout": 3000},
         # SEARCH ONLY, thorough tier: the same scenarios + the snapshot-race scenario under a `go build -race`
         # harness; label `c19race #13b` (removeState reads another session's snapshot), `c19race data-race` otherwise
@@ -34,24 +34,25 @@ SPEC = {
         "function literals handed to third-party / standard-library code are assumed to run at that site for the lock order; only known synchronous helpers (juniper xslices/xmaps, x/exp slices/maps, sort, sync.Once) let them inherit the held set for guarded accesses",
         "context.CancelFunc values called under a lock are standard-library leaves",
         "teardown_completes: each session loop observes Done (named hObservesDone) - nothing else; failures of removeState's DB read / DB write and of connector.Close are part of the model",
-        "teardown_safe: every state is closed (its update-queue goroutine ends) only if removeState's DB write succeeds (named hWriteOk) - false when the Serve context is cancelled: finding #13d",
         "blocking on channels / WaitGroups while holding a lock is modelled only inside the teardown protocol (statesWG.Wait under usersLock)",
     ],
     "explanation": (
         "PARTIAL PROOF. THEOREMS (all interleavings, unbounded threads/sessions/items, over the models): "
         "queue_fifo_lossfree, queue_sealed_after_close, queue_no_lost_wakeup, queue_consumer_exits_partial, "
         "queue_close_blocks_without_reader, queue_close_leak_witness (plain Close), state_close_consumer_exits (full "
-        "strength: what State.Close uses), acyclic_no_deadlock, lockset_no_conflict, teardown_safe, teardown_completes "
+        "strength: what State.Close uses), server_errch_close_classified (the same for Server.Close's error channel), "
+        "queue_discard_consumer_exits, acyclic_no_deadlock, lockset_no_conflict, teardown_safe (no assumption: every "
+        "state created is closed once Close has returned), teardown_completes "
         "(only assumption: session loops observe Done), teardown_ctxcancel_now_completes (regression run of the "
-        "repaired hang), teardown_writefail_unclosed_state_witness (#13d), teardown_stuck_without_observe_witness. "
+        "repaired hang), teardown_writefail_now_clean (regression run of #13d), teardown_stuck_without_observe_witness. "
         "FACTS (regenerated from /repo on every run, decided by the kernel): lock_facts_checked / lockorder_acyclic "
         "(lock-order graph incl. calls, literals and callbacks run under callee locks has no cycle), guarded_access "
         "(user.states, Backend.users, WriteControlledStore.entryTable, QueuedChannel.items accessed only under their "
-        "lock), facts_lockorder_no_deadlock, stateCloseDiscards = some true (in state_close_consumer_exits), "
-        "server_errch_close_classified (today: plain Close). SEARCH ONLY (no proof): data-race freedom of fields no lock guards (State.snap "
+        "lock), facts_lockorder_no_deadlock, stateCloseDiscards = some true and serverErrChDiscards = some true (inside "
+        "state_close_consumer_exits / server_errch_close_classified). SEARCH ONLY (no proof): data-race freedom of fields no lock guards (State.snap "
         "read by foreign goroutines, #13b), scheduler-dependent liveness, whole-server behaviour: oracles c19queue "
         "(histories of the real queue must be model runs; termination probes incl. the real State.Close), c19teardown "
-        "(RemoveUser/Close return, goroutine count returns to baseline; regression scenarios for #13a/#13c) and, "
+        "(RemoveUser/Close return, goroutine count returns to baseline; regression scenarios for #13a/#13c/#13d/#13a-errch) and, "
         "thorough tier, c19race (the same scenarios and a snapshot-race scenario under `go build -race`), plus the "
         "lead's TCP stress harness."
     ),
